@@ -16,8 +16,9 @@ use crate::panics::{self, PanicRecord};
 use crate::rng::Rng;
 use std::any::Any;
 use std::cell::{Cell, RefCell};
-use std::sync::atomic::{AtomicBool, Ordering};
+use std::sync::atomic::{AtomicBool, AtomicI64, Ordering};
 use std::sync::{Condvar, Mutex};
+use std::time::Duration;
 
 pub const WORKER_STACK_BYTES: usize = 256 << 20;
 
@@ -60,15 +61,27 @@ pub struct PoolStats {
   pub max_inflight: u64,
   /// regions in which all W workers were busy at the same time
   pub all_workers_busy: u64,
+  /// yields caused by the expiry of a quantum (a preemption at a basic-block edge of the system
+  /// under test, see `quantum_mean`), as opposed to the explicit yield points of the hooks
+  pub quantum_expiries: u64,
+  /// a running worker went to sleep inside the system under test (it waits for a lock that a
+  /// parked worker holds): the controller took the baton back and ran somebody else
+  pub blocked_workers: u64,
 }
 
 pub struct PoolConfig {
   pub workers: usize,
   pub schedule: Schedule,
+  /// 0: workers yield only at the explicit yield points. Otherwise every worker is also preempted
+  /// after a number of basic-block edges drawn from the schedule (1..=2*mean) — this needs a build
+  /// of the system under test with `-Cpasses=sancov-module … -sanitizer-coverage-trace-pc-guard`;
+  /// without it no edge is ever counted and the setting has no effect.
+  pub quantum_mean: u64,
 }
 
 struct PoolState {
   workers: usize,
+  quantum_mean: u64,
   schedule: Schedule,
   log: Vec<u32>,
   stats: PoolStats,
@@ -80,10 +93,94 @@ thread_local! {
   static WORKER: Cell<Option<(*const RegionShared, usize)>> = const { Cell::new(None) };
 }
 
+// The edge callback of LLVM's SanitizerCoverage (`trace-pc-guard`) and the thread-local it reads are
+// written in assembly: anything compiled from Rust in this build is itself instrumented (the pass
+// runs before inlining, so even `LocalKey::with` would call back into the callback).
+//
+//   simcore_quantum_tls        thread-local pointer to the running worker's remaining quantum
+//                              (an i64), or null while the thread is not executing a job or is
+//                              inside the pool's own code
+//   __sanitizer_cov_trace_pc_guard   decrement; at zero clear the pointer and tail-call
+//                              simcore_quantum_expired(pointer)
+#[cfg(all(target_arch = "x86_64", target_os = "linux"))]
+core::arch::global_asm!(
+  r#"
+  .section .tbss,"awT",@nobits
+  .p2align 3
+  .type simcore_quantum_tls,@object
+  .size simcore_quantum_tls,8
+simcore_quantum_tls:
+  .zero 8
+
+  .text
+  .globl __sanitizer_cov_trace_pc_guard
+  .type __sanitizer_cov_trace_pc_guard,@function
+__sanitizer_cov_trace_pc_guard:
+  movq %fs:simcore_quantum_tls@tpoff, %rax
+  testq %rax, %rax
+  je 1f
+  lock decq (%rax)
+  jle 2f
+1:
+  ret
+2:
+  movq $0, %fs:simcore_quantum_tls@tpoff
+  movq %rax, %rdi
+  jmp simcore_quantum_expired
+
+  .globl __sanitizer_cov_trace_pc_guard_init
+  .type __sanitizer_cov_trace_pc_guard_init,@function
+__sanitizer_cov_trace_pc_guard_init:
+  ret
+
+  .globl simcore_set_quantum
+  .type simcore_set_quantum,@function
+simcore_set_quantum:
+  movq %rdi, %fs:simcore_quantum_tls@tpoff
+  ret
+
+  .globl simcore_get_quantum
+  .type simcore_get_quantum,@function
+simcore_get_quantum:
+  movq %fs:simcore_quantum_tls@tpoff, %rax
+  ret
+"#,
+  options(att_syntax)
+);
+
+#[cfg(all(target_arch = "x86_64", target_os = "linux"))]
+extern "C" {
+  fn simcore_set_quantum(p: *const AtomicI64);
+  fn simcore_get_quantum() -> *const AtomicI64;
+}
+
+#[cfg(all(target_arch = "x86_64", target_os = "linux"))]
+fn set_quantum(p: *const AtomicI64) -> *const AtomicI64 {
+  // SAFETY: plain loads and stores of a thread-local word
+  unsafe {
+    let old = simcore_get_quantum();
+    simcore_set_quantum(p);
+    old
+  }
+}
+
+#[cfg(not(all(target_arch = "x86_64", target_os = "linux")))]
+fn set_quantum(_p: *const AtomicI64) -> *const AtomicI64 {
+  std::ptr::null()
+}
+
+/// Called by the edge callback with the (already cleared) quantum pointer.
+#[no_mangle]
+pub extern "C" fn simcore_quantum_expired(q: *const AtomicI64) {
+  park(true);
+  set_quantum(q);
+}
+
 pub fn install(cfg: PoolConfig) {
   POOL.with(|p| {
     *p.borrow_mut() = Some(PoolState {
       workers: cfg.workers.max(1),
+      quantum_mean: cfg.quantum_mean,
       schedule: cfg.schedule,
       log: Vec::new(),
       stats: PoolStats::default(),
@@ -151,6 +248,24 @@ fn decide_ex(state: &mut PoolState, n_options: usize, prefer: Option<usize>, pri
   d
 }
 
+/// The quantum of the worker that is about to run; part of the decision log, so that a replay
+/// preempts at the same edges.
+fn next_quantum(state: &mut PoolState) -> i64 {
+  if state.quantum_mean == 0 {
+    return i64::MAX;
+  }
+  let q = match &mut state.schedule {
+    Schedule::Fixed { decisions, pos } => {
+      let d = decisions.get(*pos).copied().unwrap_or(u32::MAX);
+      *pos += 1;
+      d
+    }
+    Schedule::Seeded { rng, .. } => 1 + rng.below((2 * state.quantum_mean) as usize) as u32,
+  };
+  state.log.push(q);
+  if q == u32::MAX { i64::MAX } else { q as i64 }
+}
+
 fn decide(state: &mut PoolState, n_options: usize, prefer: Option<usize>, prios: Option<&[u64]>) -> usize {
   decide_ex(state, n_options, prefer, prios, false)
 }
@@ -160,6 +275,8 @@ enum WStatus {
   Idle,
   Running,
   Parked,
+  /// asleep inside the system under test while it held the baton (see `blocked_workers`)
+  Blocked,
 }
 
 #[derive(Clone, Copy, PartialEq, Eq, Debug)]
@@ -175,24 +292,57 @@ struct SharedInner {
   cmds: Vec<Option<Cmd>>,
   status: Vec<WStatus>,
   current_job: Vec<Option<usize>>,
+  /// kernel thread ids of the workers (for `/proc/thread-self/../<tid>/stat`)
+  tids: Vec<u64>,
+  /// the last park of this worker was a quantum expiry
+  by_quantum: Vec<bool>,
 }
 
 struct RegionShared {
   inner: Mutex<SharedInner>,
   worker_cv: Vec<Condvar>,
   ctrl_cv: Condvar,
+  quantum: Vec<AtomicI64>,
+}
+
+fn own_tid() -> u64 {
+  std::fs::read_link("/proc/thread-self")
+    .ok()
+    .and_then(|p| p.file_name().and_then(|n| n.to_str()).and_then(|n| n.parse().ok()))
+    .unwrap_or(0)
+}
+
+/// 'R', 'S', 'D', … of a thread of this process
+fn thread_state(tid: u64) -> Option<char> {
+  let stat = std::fs::read_to_string(format!("/proc/self/task/{tid}/stat")).ok()?;
+  stat.rsplit_once(") ")?.1.chars().next()
 }
 
 /// The yield point reached from SUT code through the repository hook (H1). No-op unless the calling
 /// thread is a pool worker.
 pub fn yield_point() {
+  let q = set_quantum(std::ptr::null());
+  park(false);
+  set_quantum(q);
+}
+
+fn park(by_quantum: bool) {
   if let Some((ptr, k)) = WORKER.with(|w| w.get()) {
     // SAFETY: the region's shared state outlives its scoped worker threads.
     let shared = unsafe { &*ptr };
     let mut g = shared.inner.lock().unwrap();
-    g.status[k] = WStatus::Parked;
-    g.running = None;
-    shared.ctrl_cv.notify_one();
+    if g.status[k] == WStatus::Blocked {
+      // the controller took the baton away while this worker slept on a lock; somebody else has
+      // it now
+      g.status[k] = WStatus::Parked;
+      g.by_quantum[k] = false;
+      shared.ctrl_cv.notify_one();
+    } else {
+      g.status[k] = WStatus::Parked;
+      g.by_quantum[k] = by_quantum;
+      g.running = None;
+      shared.ctrl_cv.notify_one();
+    }
     loop {
       if g.cmds[k] == Some(Cmd::Resume) {
         g.cmds[k] = None;
@@ -251,9 +401,12 @@ pub fn run_region<R: Send>(n: usize, job: &(dyn Fn(usize) -> R + Sync)) -> Vec<R
       cmds: vec![None; w_eff],
       status: vec![WStatus::Idle; w_eff],
       current_job: vec![None; w_eff],
+      tids: vec![0; w_eff],
+      by_quantum: vec![false; w_eff],
     }),
     worker_cv: (0..w_eff).map(|_| Condvar::new()).collect(),
     ctrl_cv: Condvar::new(),
+    quantum: (0..w_eff).map(|_| AtomicI64::new(i64::MAX)).collect(),
   };
   let results: Vec<Mutex<Option<JobResult<R>>>> = (0..n).map(|_| Mutex::new(None)).collect();
   let parent_hash = crate::hashseed::current();
@@ -290,6 +443,7 @@ pub fn run_region<R: Send>(n: usize, job: &(dyn Fn(usize) -> R + Sync)) -> Vec<R
           }
           panics::set_capturing(capture_depth);
           WORKER.with(|w| w.set(Some((shared_ref as *const RegionShared, k))));
+          shared_ref.inner.lock().unwrap().tids[k] = own_tid();
           loop {
             let cmd = {
               let mut g = shared_ref.inner.lock().unwrap();
@@ -304,12 +458,18 @@ pub fn run_region<R: Send>(n: usize, job: &(dyn Fn(usize) -> R + Sync)) -> Vec<R
               Cmd::Exit => break,
               Cmd::Resume => unreachable!("resume of a worker that is not parked"),
               Cmd::Run(j) => {
+                set_quantum(&shared_ref.quantum[k] as *const AtomicI64);
                 let r = std::panic::catch_unwind(std::panic::AssertUnwindSafe(|| job(j)));
+                set_quantum(std::ptr::null());
                 let r = match r {
                   Ok(v) => Ok(v),
                   Err(payload) => Err((payload, panics::take_last())),
                 };
                 *results_ref[j].lock().unwrap() = Some(r);
+                if shared_ref.inner.lock().unwrap().status[k] == WStatus::Blocked {
+                  // woke up and finished without the baton: wait for it before reporting
+                  park(false);
+                }
                 let mut g = shared_ref.inner.lock().unwrap();
                 g.status[k] = WStatus::Idle;
                 g.current_job[k] = None;
@@ -326,7 +486,7 @@ pub fn run_region<R: Send>(n: usize, job: &(dyn Fn(usize) -> R + Sync)) -> Vec<R
     // controller
     let mut unstarted: Vec<usize> = (0..n).collect();
     let mut last_ran: Option<usize> = None;
-    let budget = (n as u64) * 10_000 + 100_000;
+    let budget = (n as u64) * 10_000 + 4_000_000;
     loop {
       let mut g = shared.inner.lock().unwrap();
       while g.running.is_some() {
@@ -337,6 +497,22 @@ pub fn run_region<R: Send>(n: usize, job: &(dyn Fn(usize) -> R + Sync)) -> Vec<R
       let inflight = (w_eff - idle.len()) as u64;
       let can_start = !unstarted.is_empty() && !idle.is_empty();
       if parked.is_empty() && !can_start {
+        if g.status.iter().any(|s| *s == WStatus::Blocked) {
+          // a blocked worker wakes up once the lock it waits for is released, and parks at its
+          // first edge; until then there is nothing to decide
+          let waited_since = std::time::Instant::now();
+          while !g.status.iter().any(|s| *s == WStatus::Parked) {
+            let (g2, _) = shared.ctrl_cv.wait_timeout(g, Duration::from_millis(5)).unwrap();
+            g = g2;
+            if waited_since.elapsed() > Duration::from_secs(30) {
+              // every worker is asleep: a deadlock inside the system under test (or a lock held
+              // by a thread the pool does not know). The scope cannot be left any more.
+              eprintln!("HARNESS ERROR: all simulated workers are blocked");
+              std::process::exit(2);
+            }
+          }
+          continue;
+        }
         debug_assert!(unstarted.is_empty());
         break;
       }
@@ -432,16 +608,40 @@ pub fn run_region<R: Send>(n: usize, job: &(dyn Fn(usize) -> R + Sync)) -> Vec<R
           }
         });
       }
+      let q = POOL.with(|p| next_quantum(p.borrow_mut().as_mut().unwrap()));
+      shared.quantum[target].store(q, Ordering::Relaxed);
       g.status[target] = WStatus::Running;
       g.running = Some(target);
       last_ran = Some(target);
       shared.worker_cv[target].notify_one();
       // wait for the baton to come back
+      let mut asleep = 0;
       while g.running.is_some() {
-        g = shared.ctrl_cv.wait(g).unwrap();
+        let (g2, timeout) = shared.ctrl_cv.wait_timeout(g, Duration::from_millis(20)).unwrap();
+        g = g2;
+        if g.running.is_some() && timeout.timed_out() {
+          // Only one thread runs. If it sleeps, it waits for something that only a parked worker
+          // can give it (a lock of the system under test held across a preemption).
+          asleep = if thread_state(g.tids[target]) == Some('S') { asleep + 1 } else { 0 };
+          if asleep >= 3 {
+            g.status[target] = WStatus::Blocked;
+            g.running = None;
+            // it parks at its first edge after waking up
+            shared.quantum[target].store(1, Ordering::Relaxed);
+            POOL.with(|p| p.borrow_mut().as_mut().unwrap().stats.blocked_workers += 1);
+          }
+        }
       }
       if g.status[target] == WStatus::Parked {
-        POOL.with(|p| p.borrow_mut().as_mut().unwrap().stats.yields += 1);
+        let by_quantum = g.by_quantum[target];
+        POOL.with(|p| {
+          let mut b = p.borrow_mut();
+          let s = b.as_mut().unwrap();
+          s.stats.yields += 1;
+          if by_quantum {
+            s.stats.quantum_expiries += 1;
+          }
+        });
       }
     }
     let mut g = shared.inner.lock().unwrap();
